@@ -11,7 +11,9 @@
 //        kind: map multimap set multiset bag cset mapcount
 //        flags: 1 pre-populated target, 2 barrier before serialize (otherwise the inserts
 //        are still pending), 4 strings may contain NUL, 8 only rank 0 inserts, 16 non-empty
-//        default value, 32 short alphabet (many duplicates / shared prefixes), 64 directed: exactly the keys "a\\0b" and "a\\0c"
+//        default value, 32 short alphabet (many duplicates / shared prefixes), 64 directed: exactly the keys "a\\0b" and "a\\0c",
+//        128 reused prefix: a different container is serialized to the same prefix first (512: a tiny one instead of a
+//        big one; 256: its files are also planted at rank indices size..2*size-1 plus one unparsable file)
 //   leak                                      observation: can a post-serialize insert reach another rank's image?
 //   tok  <hex token> ...                      cereal JSONInputArchive on `{"value0": <token>}`
 #include "hcommon.hpp"
@@ -240,11 +242,11 @@ template <class C> static void dump(C& c, const char* tag) {
     c.for_all([tag](const std::string& k, std::string& v) { hc::out(std::string(tag) + " " + hex(k) + ":" + hex(v)); });
 }
 
-template <class C> static void insert_one(C& c, const std::string& k, uint64_t seed) {
-  if constexpr (std::is_same_v<C, SMap>) { c.async_insert(k, valof(k)); hc::out("ins " + hex(k) + ":" + hex(valof(k))); }
-  else if constexpr (std::is_same_v<C, SMMap>) { std::string v = valof(k) + std::to_string(seed % 7); c.async_insert(k, v); hc::out("ins " + hex(k) + ":" + hex(v)); }
-  else if constexpr (std::is_same_v<C, CMap>) { size_t v = countof(k, 12345); c.async_insert(k, v); hc::out("ins " + hex(k) + ":" + std::to_string(v)); }
-  else { c.async_insert(k); hc::out("ins " + hex(k)); }
+template <class C> static void insert_one(C& c, const std::string& k, uint64_t seed, const std::string& tag = "ins") {
+  if constexpr (std::is_same_v<C, SMap>) { c.async_insert(k, valof(k)); hc::out(tag + " " + hex(k) + ":" + hex(valof(k))); }
+  else if constexpr (std::is_same_v<C, SMMap>) { std::string v = valof(k) + std::to_string(seed % 7); c.async_insert(k, v); hc::out(tag + " " + hex(k) + ":" + hex(v)); }
+  else if constexpr (std::is_same_v<C, CMap>) { size_t v = countof(k, 12345); c.async_insert(k, v); hc::out(tag + " " + hex(k) + ":" + std::to_string(v)); }
+  else { c.async_insert(k); hc::out(tag + " " + hex(k)); }
 }
 
 template <class A, class B, class... CtorArgs>
@@ -255,6 +257,26 @@ static int run_ser_t(ygm::comm& world, uint64_t seed, long nitems, int flags, Ct
   std::vector<std::string> pool;   // shared pool so that different ranks insert equal keys
   for (long i = 0; i < nitems; ++i) pool.push_back(gen_str(shared, flags));
   size_t my_inserts = 0;
+  if (flags & 128) {
+    // the prefix is REUSED: a different container X is serialized to it first (big: every rank owns plenty; with 512
+    // tiny: one key), optionally (256) its rank files are also copied to the indices size..2*size-1 as if the prefix had
+    // first been used on twice as many ranks, plus one unparsable file beyond them
+    {
+      A x(world, dv...);
+      hc::rng xr(seed * 77 + 13 * (uint64_t)world.rank() + 5);
+      long nx = (flags & 512) ? (world.rank0() ? 1 : 0) : 30;
+      for (long i = 0; i < nx; ++i) insert_one(x, "stale-" + std::to_string(world.rank()) + "-" + std::to_string(i) + gen_str(xr, 0), xr.below(1000), "xins");
+      x.serialize(fname);
+    }
+    world.cf_barrier();
+    if ((flags & 256) && world.rank0()) {
+      for (int r = 0; r < world.size(); ++r) {
+        std::ofstream os(fname + std::to_string(r + world.size()), std::ios::binary); os << slurp(fname + std::to_string(r));
+      }
+      std::ofstream os(fname + std::to_string(2 * world.size()), std::ios::binary); os << "this is not an image";
+    }
+    world.cf_barrier();
+  }
   {
     A a(world, dv...);
     if (flags & 64) {                // directed minimal content: two keys that differ only after a NUL byte
@@ -266,7 +288,8 @@ static int run_ser_t(ygm::comm& world, uint64_t seed, long nitems, int flags, Ct
       }
     if (flags & 2) world.barrier();
     a.serialize(fname);            // otherwise: the inserts above are still pending here
-    hc::out("file " + hex(slurp(fname + std::to_string(world.rank()))));
+    if (fs::exists(fname + std::to_string(world.rank()))) hc::out("file " + hex(slurp(fname + std::to_string(world.rank()))));
+    else hc::out("nofile");
     dump(a, "a");
     world.cf_barrier();            // for_all = barrier + local iteration: nobody may issue anything new before everybody has iterated
   }
